@@ -93,14 +93,7 @@ def asdict(
                     )
                     for i in v
                 ]
-                try:
-                    rv[a.name] = cf(items)
-                except TypeError:
-                    if not issubclass(cf, tuple):
-                        raise
-                    # Workaround for TypeError: cf.__new__() missing 1 required
-                    # positional argument (which appears, for a namedturle)
-                    rv[a.name] = cf(*items)
+                rv[a.name] = _make_collection(cf, items)
             elif isinstance(v, dict):
                 df = dict_factory
                 rv[a.name] = df(
@@ -129,6 +122,23 @@ def asdict(
         else:
             rv[a.name] = v
     return rv
+
+
+def _make_collection(cf, items):
+    """
+    Instantiate the collection class *cf* with *items*.
+    """
+    if issubclass(cf, tuple) and hasattr(cf, "_fields"):
+        # A namedtuple takes its items as positional arguments; cf(items)
+        # only raises if it doesn't have exactly one field.
+        return cf(*items)
+    try:
+        return cf(items)
+    except TypeError:
+        if not issubclass(cf, tuple):
+            raise
+        # Other tuple subclasses whose __new__ takes the items one by one.
+        return cf(*items)
 
 
 def _asdict_anything(
@@ -171,14 +181,7 @@ def _asdict_anything(
             )
             for i in val
         ]
-        try:
-            rv = cf(items)
-        except TypeError:
-            if not issubclass(cf, tuple):
-                raise
-            # Workaround for TypeError: cf.__new__() missing 1 required
-            # positional argument (which appears, for a namedturle)
-            rv = cf(*items)
+        rv = _make_collection(cf, items)
     elif isinstance(val, dict):
         df = dict_factory
         rv = df(
@@ -286,14 +289,7 @@ def astuple(
                     )
                     for j in v
                 ]
-                try:
-                    rv.append(cf(items))
-                except TypeError:
-                    if not issubclass(cf, tuple):
-                        raise
-                    # Workaround for TypeError: cf.__new__() missing 1 required
-                    # positional argument (which appears, for a namedturle)
-                    rv.append(cf(*items))
+                rv.append(_make_collection(cf, items))
             elif isinstance(v, dict):
                 df = v.__class__ if retain is True else dict
                 rv.append(
